@@ -11,6 +11,10 @@ CHECKS = {
          "bounded exhaustive enumeration of class files (assembler encodings × instruction shapes × pool/attribute orders + javac corpus) through the real reader, compared fact-by-fact with an independent strict JVMS parser",
          "Every class of explicitly enumerated spaces (384 instruction samples × 3 forms × 3 pool orders; every instruction sequence of length ≤3/4 over the 29-symbol decoding-arm alphabet with every branch target; 3^8 per-site form product; 720 pool permutations; rotations/padding/two-slot insertions of a large pool; attribute orders and contents of 6 kitchen-sink variants; every class-file version 45.3..67.0 incl. preview minors; boundary Utf8 strings in every role; 357 javac-17 corpus classes; thorough: all of java.base) is read by the real duke::read_class, projected into an encoding-free model and compared fact-by-fact with what an independent strict parser reads from the same bytes and with the model the assembler started from (three-way; oracle self-check failure is exit 2).",
          "DESIGN.md §2 C01", TRUST + "; cfmodel (parser/assembler pair, self-checked on java.base)"),
+ "C02": ("model_checking",
+         "bounded exhaustive exploration of the writer's widening fix-point: threshold windows of method layouts (every jump opcode class × direction × distance around ±32767/32768, cascades of 2-3 jumps, switch alignments, code-length limit) plus the shared class suite and corpus, each written by the real duke::write_class and re-read by an independent strict parser",
+         "A state is a (method shape, widened-jump set) reached by the writer; a transition is one execution of the real write_class on a tree produced by the real reader. For every tree of the C01 spaces (suite, shape sweep, corpus; thorough: java.base and length-4 shapes) and of assembler-built threshold windows (single far jumps for 18 opcodes × 2 directions × distances around the i16 limits with 1/2/3-byte padding; cascades where widening one jump pushes another over the limit, nested/disjoint/crossing; switches at every alignment with far arms; exception ranges, line numbers and local ranges on moving instructions; code length landing on 65534..65537; ldc 254..257; locals 255/256; iinc ±127..129; pools filled to 65535) the output must pass the strict parser and equal the projection of the tree given to the writer, modulo the goto_w trampoline the statement allows; a clean error only where the class is unrepresentable; floors prove forward/backward trampolines, cascades with ≥2 widenings, exact ±32767/32768 boundaries and clean overflow errors occurred.",
+         "DESIGN.md §2 C02", TRUST + "; cfmodel parser/assembler pair"),
  "C03": ("model_checking",
          "explicit-state BFS (stateright) over insertion histories of the real Mappings object + exhaustive line-sequence enumeration through the real reader",
          "Every insertion history (every order of inserting the classes/fields/methods/parameters/comments of a small universe, 2..4 namespaces, missing-name patterns, comment alphabet) is a state; on every state the real writer, reader and writer again run and are compared with an independent reference reader/model: round trip, text states exactly the content, all histories of one content give identical bytes, fixed point. Plus every sequence of <=L lines over a 9-line alphabet through the real reader against the reference reading (no merge/loss/re-parenting).",
@@ -27,6 +31,10 @@ CHECKS = {
          "exhaustive enumeration of mapping tables × descriptor-grammar strings × super-type graphs × member queries through the real ARemapper/BRemapper",
          "Every descriptor the JVMS grammar derives with ≤3 components over 13 atoms (and every string ≤5 over the descriptor alphabet for the failure paths), every state of 7 class slots (absent / renamed / identity / colliding), 2 and 3 namespaces with every (from,to) direction, every super-type DAG on 4 classes with ordered super lists ≤2, members declared in every subset of classes with partial name rows: every query is asked of remappers built by the real remapper_a/remapper_b and compared with a reference lookup written from the statement (shape preservation, nearest declaring super type in declaration order, identity fallback, X→Y→X identity on injective sets).",
          "DESIGN.md §2 C06", TRUST),
+ "C07": ("exploration",
+         "exhaustive position × reference-kind matrix of one-position classes (588 cells × 17 remappers) plus kitchen-sink, corpus and mixed jars through the real dukebox::remap::remap, compared with a reference renaming that asks the same remapper object at every reference-carrying position",
+         "For each of 94 reference-carrying positions (declarations, super types, every referencing instruction, handles, bootstrap arguments, method types, dynamic constants, exception tables, stack-map types in every frame kind, annotation types/enums/class literals/nested/arrays, type annotations, InnerClasses/EnclosingMethod/nest/permitted records, record components, local variable descriptors) × 10 reference kinds (mapped, unmapped, array, package-moved, inner class, member declared in owner, inherited inside / outside the jar, unmapped member) a one-position class is put in a jar, remapped by the real code with 17 remappers (table remappers and the real remapper_b with the jar's super-class provider), written, reopened with zip and parsed strictly. Differences are attributed to dukebox's traversal (remap:), to duke's writer (writer:) or to the reader; entry names, byte-equality of non-class entries and well-formedness are judged on the jar. Signatures and names the statement does not list are information only.",
+         "DESIGN.md §2 C07", TRUST + "; the zip crate; cfmodel"),
  "C08": ("model_checking",
          "explicit-state BFS over the Cayley graph of namespace permutations with the real Mappings::reorder as transition function, lock-step against a reference reorder",
          "States are (initial mapping set, permutation so far, set produced by the real code); actions are the generators of S_N (N=2..4). Every transition rebuilds a real Mappings, calls the real reorder and is compared with the reference (rows permuted, entries re-keyed, descriptors translated old-first→new-first, comments and parameter indices untouched); path independence, inverse and identity laws are checked on every state; missing new-first names and re-key collisions must be refused.",
@@ -47,6 +55,14 @@ CHECKS = {
          "exhaustive enumeration of two-namespace mapping sets (nesting, orphans, comment alphabet, insertion orders) through the real Enigma writer and reader, stream and directory",
          "Every mapping set of several completely enumerated universes (nesting to depth 3, orphan inner classes, unnamed classes, packages, parameters with comments, 13-comment alphabet incl. blank lines, leading spaces and #) is written by the real write_all / enigma_dir::write and read back by read_into / enigma_dir::read on tmpfs in three insertion orders; result must equal the set, text must equal an independent reference reading, every class in exactly one file, output identical across insertion orders.",
          "DESIGN.md §2 C12", TRUST),
+ "C13": ("exploration",
+         "exhaustive enumeration of pairs of member orders (all pairs of duplicate-free sequences over a k-symbol alphabet, for fields, methods and interfaces), all subsets of a jar-entry menu and single-difference class contents through the real dukebox::merge::merge",
+         "Member-order space: all 65² (thorough 326²) pairs of duplicate-free sequences of length ≤k over k symbols as the field / method / interface lists of a class on the two sides: every member exactly once, one-sided ones carry the side annotation, shared ones none, both relative orders preserved whenever compatible. Entry space: every subset of a 14-item (thorough 20) entry menu (one-sided / identical / differing classes, resources, directories, manifests, signature files, bundled server libraries) in two entry orders and two jar representations: exactly-once, drops as stated, identical classes byte-identical, one-sided classes marked. Content space: 41 single-difference aspects of a differing class; the rest of a merged class must come from one of the sides (judged through duke's own read/write so its losses cancel).",
+         "DESIGN.md §2 C13", TRUST + "; the zip crate; cfmodel"),
+ "C17": ("model_checking",
+         "explicit-state BFS (stateright) over visitor decision sets (deviation-bounded: interest flags off, members declined, visit_code→None) per class, and over concatenated class streams × visitor kinds, with the real read_class_multi / ClassFile::accept as transition function",
+         "Masks graph: a state is (class, set of deviating visitor answers); deviations are each of the 51 interest flags over five levels, declining the class, one field / method / record component, or visit_code()=None for one method; all sets with ≤2 (thorough ≤3) deviations plus 9 all-off corners, for kitchen sinks in 3 attribute orders and the 357-class corpus. Every state runs the real reader on the class followed by junk bytes, and replays the full tree into the same visitor: received items must equal the full read filtered by the answers, in order; items after a declined one intact; cursor exactly at the class end; read result == replay result. Streams graph: concatenations of 1..3 classes × 9 visitor kinds per read: after the k-th read the cursor sits at the k-th boundary and class k was delivered.",
+         "DESIGN.md §2 C17", TRUST + "; stateright's BFS exhaustiveness; cfmodel; hook wrappers MaskedField / MaskedRecordComponent (forwarding only)"),
  "C18": ("exploration",
          "exhaustive enumeration of all strings up to a length bound over the descriptor and name alphabets through the real parsers/predicates against an independent JVMS recogniser",
          "All 3.2M strings of length ≤6 (thorough ≤7) over BDLa/;[()V.$ through field/method/return parse: accepted exactly when in the JVMS language, structure equal to the reference structure, write∘parse and parse∘write identities (dimensions 1,2,254,255,256,257 explicit); all strings ≤6 over a.;[/<>$ plus <init>/<clinit> neighbours through the seven name predicates and TryFroms; split/join inverse laws on all short names.",
@@ -91,7 +107,7 @@ def main():
             "guard": "cargo feature `verif` of crate duke (off by default)",
             "enable": "the harness depends on /repo/duke by path with features=[\"verif\"]; nothing else is changed",
             "baseline_off_cmd": "cd /repo && cargo nextest run --workspace --no-fail-fast --test-threads 8 --offline || cargo test --workspace --no-fail-fast --offline",
-            "source_commits": ["202f4bb"],
+            "source_commits": ["202f4bb", "cb1b4a4"],
             "add_only": True,
         },
         "engines": [
